@@ -23,19 +23,19 @@ BOUNDED = " Bounded model checking, not a proof: everything beyond the stated bo
 CHECKS = {
  "C01": S("Every path of the real myers/patience/lcs code within the shape bounds (range lengths <=4 quick / <=6 thorough, padded slices and offset lookups, three entry points) is executed on symbolic items of an unbounded alphabet; each path stands for all inputs with that equality pattern; the online monitor's claims hold on all of them, data claims by solver entailment; sub-range runs are compared with runs on the extracted slices." + BOUNDED,
           "symbolic execution of the real diff algorithms (z3-decided comparisons) with an online monitor hook, bounded by range length", "6/C01"),
- "C02": SK("Captured op lists of all capture entry points (incl. TextDiff::from_slices and TextDiffConfig::deadline) are validated on every path for n,m<=4/5, with the deadline as a symbolic clock; ratio range / ==1.0-iff-equal are decided per path, and get_diff_ratio's f32 arithmetic is model-checked bit-precisely by Kani for <=3 ops with lengths <=64 and for one Equal op up to 2^20." + BOUNDED,
+ "C02": SK("Captured op lists of all capture entry points (incl. TextDiff::from_slices and TextDiffConfig::deadline) are validated on every path for n,m<=4/5, with the deadline as a symbolic clock; ratio range / ==1.0-iff-equal are decided per path, and get_diff_ratio's f32 arithmetic is model-checked bit-precisely by Kani for <=3 ops with lengths <=64 and for one Equal op up to 2^20. Structured longer inputs (one path each, up to 840 items a side; sub-check C02b: one text diff with 65 900 different tokens) are part of the bounds listed in the evidence." + BOUNDED,
            "symbolic execution of the capture pipeline (z3) + Kani/CBMC on get_diff_ratio (IEEE f32)", "6/C02"),
- "C03": SK("Myers and LCS, raw callbacks and captured ops: deleted+inserted == N+M-2L against a reference LCS whose comparisons are decided by the same solver, n,m<=4/6; ratio == 2L/(N+M) per path and bit-precisely in Kani." + BOUNDED,
+ "C03": SK("Myers and LCS, raw callbacks and captured ops: deleted+inserted == N+M-2L against a reference LCS whose comparisons are decided by the same solver, n,m<=4/6, plus structured longer inputs of up to 840 items a side (one path each; incl. 300..1000-round middle-snake searches over mostly similar inputs with swapped blocks); ratio == 2L/(N+M) per path and bit-precisely in Kani." + BOUNDED,
            "symbolic execution with a solver-decided reference LCS + Kani/CBMC on the ratio formula", "6/C03"),
  "C04": S("The generic text layer (TextDiffConfig::diff_*, iter_all_changes, iter_changes) runs on symbolic text (SymTxt) for all pattern pairs up to 2/3 characters plus longer patterns, 5 tokenizers x 3 algorithms: non-Insert values are pointer-identical to old tokens in order (so they concatenate to the old text), non-Delete to new tokens, indices consecutive from 0. The byte-level half (tokens of str/[u8] concatenate to the input) is decided by Kani in C06 for lines/words/chars/lines-and-newlines; unicode words / graphemes of the real types are not decided." + BOUNDED,
           "symbolic execution of the real generic text layer on a symbolic string type (z3)", "6/C04",
           "SymTxt's tokenizers are the harness's (trivial by construction, checked to partition the text on every path); the real str/[u8] tokenizers are C06."),
- "C05": S("Line diffs over symbolic lines (<=3/5 lines per side, LF/CRLF/CR, missing final newline, empty sides, 3 algorithms, radius 0..=2/3, header on/off, byte mode with invalid UTF-8 in every line): the diff stage is symbolic; the rendering of each path is produced by the real UnifiedDiff (Display and to_writer) on one model of the path and checked by an independent strict parser/applier (counts, true positions, order, exact application incl. the no-newline marker, empty output for equal inputs, context <= radius, deletions before insertions, writer bytes unchanged, Display == lossy(writer)); udiff::unified_diff on the instantiated real strings must agree. The compaction-swap stale-index defect is a listed known finding (attributed via hook H2)." + BOUNDED,
+ "C05": S("Line diffs over symbolic lines (<=3/5 lines per side, LF/CRLF/CR, missing final newline, empty sides, 3 algorithms, radius 0..=2/3, header on/off, byte mode with invalid UTF-8 in every line): the diff stage is symbolic; the rendering of each path is produced by the real UnifiedDiff (Display and to_writer) on one model of the path and checked by an independent strict parser/applier (counts, true positions, order, exact application incl. the no-newline marker, empty output for equal inputs, context <= radius, deletions before insertions, writer bytes unchanged, Display == lossy(writer)); udiff::unified_diff on the instantiated real strings must agree; the same formatter object re-rendered after context_radius / header were changed must equal a fresh formatter. The compaction-swap stale-index defect is a listed known finding (attributed via hook H2)." + BOUNDED,
           "symbolic execution of the line diff (z3) + strict unified-diff parser/applier on each path's rendering", "6/C05",
           "Rendering copies line bytes without branching on them, so one model per path is exhaustive for that path."),
- "C06": Kc("The real impl DiffableStr for str and for [u8] (tokenize_lines, tokenize_words, tokenize_lines_and_newlines, tokenize_chars, plus len/as_bytes/as_str/ends_with_newline) on fully symbolic byte buffers of length 1..2 (quick) / up to 3-4 (thorough): non-empty tokens that partition the input by pointer arithmetic, documented token shapes, and identical tokens from the str and [u8] implementations on valid UTF-8 (lines and chars; words / lines-and-newlines equivalence only where the harness fits in memory, see evidence). tokenize_unicode_words and tokenize_graphemes are NOT decided (third-party segmentation tables; Kani's compiler crashes on unicode-segmentation)." + BOUNDED,
+ "C06": Kc("The real impl DiffableStr for str and for [u8] (tokenize_lines, tokenize_words, tokenize_lines_and_newlines, tokenize_chars, plus len/as_bytes/as_str/ends_with_newline) on fully symbolic byte buffers of length 1..2 (quick; the [u8] line tokenizer and the str-vs-[u8] line equivalence also 3) / up to 3-4 (thorough): non-empty tokens that partition the input by pointer arithmetic, documented token shapes, and identical tokens from the str and [u8] implementations on valid UTF-8 (lines and chars; words / lines-and-newlines equivalence only where the harness fits in memory, see evidence). tokenize_unicode_words and tokenize_graphemes are NOT decided (third-party segmentation tables; Kani's compiler crashes on unicode-segmentation)." + BOUNDED,
            "Kani/CBMC bounded model checking of the real tokenizers on symbolic byte buffers", "6/C06"),
- "C07": S("With hook H1 the clock is a symbolic input: one z3 Bool per deadline probe with a latch, so expiry before the start, at every reachable probe, and never are all explored for 3 algorithms, n,m<=4/5, 7 entry points (incl. TextDiffConfig::deadline/timeout): valid script, finish once, bounded comparisons after expiry (constants.json), never-expiring == no deadline, and the deadline reaches the algorithm (>=1 probe on disjoint inputs)." + BOUNDED,
+ "C07": S("With hook H1 the clock is a symbolic input: one z3 Bool per deadline probe with a latch, so expiry before the start, at every reachable probe, and never are all explored for 3 algorithms, n,m<=4/5, 7 entry points (incl. TextDiffConfig::deadline/timeout): valid script, finish once, bounded comparisons after expiry and, when the first probe already reports expiry, in total (constants.json), never-expiring == no deadline, and the deadline reaches the algorithm (>=1 probe on disjoint inputs)." + BOUNDED,
           "symbolic execution with a solver-controlled virtual clock (z3 Bool per deadline probe)", "6/C07"),
  "C08": SK("The failing hook call index k is a z3 Int; every position incl. finish and 'never' is explored for 3 algorithms x 7 adapter stacks x n,m<=4/5: exact error propagation, no call after the failure, finish once and last, NoFinishHook suppresses only finish, default replace = delete+insert; Kani adds the integer forwarding wrappers for all usize arguments." + BOUNDED,
            "symbolic execution with a symbolic failing-call index (z3) + Kani/CBMC on the forwarding wrappers", "6/C08"),
@@ -55,12 +55,12 @@ CHECKS = {
           "Above the threshold, fresh extra tokens are assumed different from the skeleton tokens (copies are explicit shapes) so that a class-based Hash is lawful."),
  "C15": S("The harness decides with the solver which items are unique on both sides, computes the longest in-order subset, and requires patience (raw and captured) to report at least that many of them Equal, each paired with its counterpart; n,m<=4/5." + BOUNDED,
           "symbolic execution of patience with a solver-decided anchor reference", "6/C15"),
- "C16": S("Line diffs over symbolic lines of 1-3 symbolic words (<=6/8 words in total), 3 algorithms, inline deadline none / expired / built-in 500 ms under the symbolic clock: same tags and indices as the plain expansion, segments are consecutive sub-slices of the line (pointer identity), emphasis only in Delete/Insert of a Replace and never on a line break, missing_newline agrees; both sides of the 0.5 ratio gates are witnessed." + BOUNDED,
+ "C16": S("Line diffs over symbolic lines of 1-3 symbolic words (<=6/8 words in total), 3 algorithms, inline deadline none / expired / built-in 500 ms under the symbolic clock: same tags and indices as the plain expansion, segments are consecutive sub-slices of the line (pointer identity), emphasis only in Delete/Insert of a Replace and never on a line break, missing_newline agrees; both sides of the 0.5 ratio gates are witnessed; three texts have a line of more than 65 536 units." + BOUNDED,
           "symbolic execution of iter_inline_changes on symbolic text (z3), virtual clock for the inline deadline", "6/C16",
           "With the unicode feature the inline code calls tokenize_unicode_words, which for SymTxt is the harness tokenizer."),
  "C17": S("TextDiffRemapper (new/from_text_diff/slice_old/slice_new/iter_slices) and the one-call helpers utils::diff_{chars,words,unicode_words,graphemes,lines,slices} on symbolic text for all pattern pairs x 5 tokenizers x 3 algorithms: same tags as slice-wise expansion, each slice is the substring covering exactly the op's tokens (pointer+length), both texts reconstructed, no empty slice, no panic. The helpers' first step on real str / [u8] input, the tokenizers (lossless, in-bounds, no panic, also on invalid UTF-8), is decided by the Kani tokenizer harnesses for all inputs of 1..=2 (thorough 3) bytes." + BOUNDED,
           "symbolic execution of the remapper and helper functions on a symbolic string type (z3); Kani/CBMC on the real str/[u8] tokenizers", "6/C17"),
- "C18": S("The real get_close_matches::<SymTxt> (both pre-filters, Myers, BinaryHeap, Ord of the string type) against an exhaustive ranking computed from a solver-decided LCS, for words/candidates up to 3 characters, up to 2/3 candidates (empty and duplicate ones included), n in 0..=3 and every cutoff at which the result can change (each attainable ratio, one ulp below/above, 0, 0.5, 1)." + BOUNDED,
+ "C18": S("The real get_close_matches::<SymTxt> (both pre-filters, Myers, BinaryHeap, Ord of the string type) against an exhaustive ranking computed from a solver-decided LCS, for words/candidates up to 3 characters, up to 2/3 candidates (empty and duplicate ones included), n in 0..=3 and every cutoff at which the result can change (each attainable ratio, one ulp below/above, 0, 0.5, 1); plus the longer families listed in the evidence (exact-cutoff, block-structured, 47 candidates, near-identical candidates of 70..112 characters)." + BOUNDED,
           "symbolic execution of get_close_matches on symbolic strings (z3) against an exhaustive reference ranking", "6/C18"),
  "C19": S("Element comparisons are counted on every path: (a) all inputs n,m<=5/6, Myers against a reference D, Patience against its reported script; (b) a skeleton family of 50..200 (800 thorough) shared pairwise-different items plus <=2/3 free items. The bound C*(N+M+1)*(D+1) uses fixed constants (constants.json). (a) says nothing about growth and (b) is one family: periodic / small-alphabet / unrelated inputs of thousands of items are NOT claimed." + BOUNDED,
           "symbolic execution with comparison counting (z3); Patience measured on each path's model with a real hash", "6/C19",
